@@ -862,7 +862,9 @@ func writeDirectTextContent(n *html.Node, checker *exclusionChecker, result *str
 					result.WriteString(" ")
 				}
 			default:
-				result.WriteString(getTextContentFiltered(c, checker))
+				// Untrimmed: the blank in "see <b>this </b>now" and the line
+				// break in "one<br>two" separate words
+				getTextContentRecursive(c, checker, result)
 			}
 		}
 	}
